@@ -795,6 +795,12 @@ func (state *RuntimeState) getUsernameIfKeymasterSigned(VerifiedChains [][]*x509
 		if len(chain) < 2 {
 			continue
 		}
+		// The role requesting CA shares the signer key, but the certs it
+		// issues are IP restricted: they only authenticate through
+		// getUsernameIfIPRestricted.
+		if bytes.Equal(chain[1].Raw, state.selfRoleCaCertDer) {
+			continue
+		}
 		username := chain[0].Subject.CommonName
 		//keymaster certs as signed directly
 		certSignerPKFingerprint, err := getKeyFingerprint(chain[1].PublicKey)
